@@ -8,13 +8,21 @@ export GOFLAGS=-mod=mod GOPROXY=off GOSUMDB=off GOTOOLCHAIN=local
 wt=/tmp/wt/confirm-$sid
 git -C /repo worktree remove --force $wt 2>/dev/null
 git -C /repo worktree add -q --detach $wt HEAD || exit 2
-cleanup() { git -C /repo worktree remove --force $wt; rm -rf /tmp/go-build* 2>/dev/null; }
+export GOTMPDIR=/tmp/gotmp-confirm-$sid; rm -rf $GOTMPDIR; mkdir -p $GOTMPDIR
+cleanup() { git -C /repo worktree remove --force $wt; rm -rf $GOTMPDIR; }
 trap cleanup EXIT
 cd $wt
 demo_path=$(python3 -c "import json;print(json.load(open('$src/meta.json'))['demo_path'])")
 demo_cmd=$(python3 -c "import json;print(json.load(open('$src/meta.json'))['demo_cmd'])")
 demo_src=$(ls $src | grep -v -e patch.diff -e meta.json | head -1)
-git apply --check $src/patch.diff || { echo "CONFIRM-FAIL patch does not apply"; exit 1; }
+if ! git apply --check $src/patch.diff 2>/dev/null; then
+  # written against an older commit of /repo: re-base it with a three-way merge, keep the result as the patch
+  if git apply --3way $src/patch.diff >/dev/null 2>&1 && ! git diff --name-only --diff-filter=U | grep -q . && go build ./... ; then
+    git reset -q; git diff > $src/patch.rebased; git checkout -q -- .; cp $src/patch.rebased $src/patch.diff; rm -f $src/patch.rebased; echo "note: patch re-based with a three-way merge"
+  else
+    echo "CONFIRM-FAIL patch does not apply"; exit 1
+  fi
+fi
 mkdir -p $(dirname $demo_path); cp $src/$demo_src $demo_path
 # 1. demo passes without change
 if ! bash -c "$demo_cmd" > /tmp/confirm-$sid.clean.log 2>&1; then echo "CONFIRM-FAIL demo fails on the unchanged tree"; tail -20 /tmp/confirm-$sid.clean.log; exit 1; fi
